@@ -10,6 +10,9 @@ var (
 	ErrMismatchedPrecision = errors.New("mismatched precision")
 	ErrMismatchedUnit      = errors.New("mismatched unit")
 	ErrIntOverflow         = errors.New("operation resulted in integer overflow")
+	// ErrDivideByZero is raised by the division operators when the divisor is zero.
+	// FHIRPath defines the result of such an operation to be empty ( { } ).
+	ErrDivideByZero = errors.New("division by zero")
 )
 
 // Type names.
